@@ -1052,6 +1052,15 @@ pub fn set_signal_handler(sig: i32, h: SigHandlerFn, sa_mask: u64, nodefer: bool
     _ = lock().handlers.insert(sig, (h, sa_mask, nodefer));
 }
 
+thread_local! {
+    static SENT_BY_ME: Cell<u64> = const { Cell::new(0) };
+}
+
+/// Signals queued so far by the calling thread.
+pub fn signals_sent_by_me() -> u64 {
+    SENT_BY_ME.with(Cell::get)
+}
+
 /// Queue an asynchronous signal for the simulated thread whose pthread id is `pthread`.
 pub fn queue_signal(pthread: u64, sig: i32) -> bool {
     let mut st = lock();
@@ -1073,6 +1082,7 @@ pub fn queue_signal(pthread: u64, sig: i32) -> bool {
     };
     st.threads[i].sigq.push_back((sig, delay));
     *st.counters.entry("signal.sent").or_insert(0) += 1;
+    SENT_BY_ME.with(|c| c.set(c.get() + 1));
     if delay > 0 {
         *st.counters.entry("fault.late_signal").or_insert(0) += 1;
     }
